@@ -656,7 +656,16 @@ fn fam_union<A: Shape, B: Shape>(cx: &mut Ctx, p: &ByteCase) {
             viol::report(&["C12", "C04"], "N.count", format!("{}: ArcUnion::strong_count {} but {} owning handles exist", cx.what, c, owners));
         }
     };
+    {
+        let o = if second { owners_b } else { owners_a };
+        for u in &unions {
+            check(cx, u, o);
+        }
+    }
     for op in p.ops.iter().take(24) {
+        if viol::any() {
+            break;
+        }
         let own = if second { &mut owners_b } else { &mut owners_a };
         match pick(op[0], 7) {
             0 if !unions.is_empty() && unions.len() < 5 => {
